@@ -244,6 +244,13 @@ func implBlocks(c Case) ImplResult {
 		res.Checks = append(res.Checks, ModelCheck{Line: "blocks quotesim " + c.Args[0], Property: "C08"})
 		res.Stats = append(res.Stats, "quotesim-checked")
 	}
+	// the hypotheses of GM.Props.C08.quote_prefix_simulation_partial (GM.Blocks.quoteHypB): for a source of its class the
+	// model's run on the source itself ends normally, reads all lines and builds a well-shaped store; a failure is reported
+	// as "hypothesis of the theorems not met", not as a violation
+	if quoteSimClass(src) {
+		res.Checks = append(res.Checks, ModelCheck{Line: "blocks quotesimhyp " + c.Args[0], Property: "C08"})
+		res.Stats = append(res.Stats, "quotesimhyp-checked")
+	}
 	if len(d.unmodelled) > 0 {
 		res.NoModel = true
 		for k := range d.unmodelled {
@@ -265,4 +272,18 @@ func implBlocks(c Case) ImplResult {
 		res.Key = strings.Join(ks, ",")
 	}
 	return res
+}
+
+// quoteSimClass: the class of sources of the whole-run C08 theorem (GM.Blocks.classB): no tab, no CR, no byte that can
+// start a list item ('-', '*', '+', digits), last byte a line feed
+func quoteSimClass(src []byte) bool {
+	if len(src) == 0 || src[len(src)-1] != '\n' {
+		return false
+	}
+	for _, c := range src {
+		if c == '\t' || c == '\r' || c == '-' || c == '*' || c == '+' || (c >= '0' && c <= '9') {
+			return false
+		}
+	}
+	return true
 }
